@@ -209,9 +209,11 @@ class CLexer(HandLexerBase):
         if char is None:
             pass
         elif char == "L":
-            # Wide char or identifier
+            # Wide char, wide string or identifier
             if self.accept("'"):
                 return self.lex_char
+            elif self.accept('"'):
+                return self.lex_string
             else:
                 return self.lex_identifier
         elif char in self.lower_letters + self.upper_letters + "_":
